@@ -211,6 +211,18 @@ fn crafted_programs() -> Vec<Prog> {
         };
         v.push(Prog { origin: format!("crafted-shared-failures-permuted-{n}"), src, consts: vec![] });
     }
+    // the zero tests of divisors are built from the same gates as `b == 0u8`: user expressions re-use
+    // gates that were first emitted while the cached panic records of two branches were merged
+    for (n, src) in [
+        "pub fn main(c: bool, a: u8, b1: u8, b2: u8) -> (u8, bool, bool) {\n    let r = if c { (a / b1) ^ (a / b2) } else { (a / b2) ^ (a / b1) };\n    let p1 = b1 == 0u8;\n    let p2 = b2 == 0u8;\n    let w = p1 | p2;\n    (r, p1 ^ w, w ^ p2)\n}\n",
+        "pub fn main(c: bool, a: u8, b0: u8, b1: u8, b2: u8, b3: u8) -> (u8, bool, bool) {\n    let r = if c { (a / b0) ^ (a / b1) ^ (a / b2) ^ (a / b3) } else { (a / b1) ^ (a / b2) ^ (a / b3) };\n    let z1 = ((b0 == 0u8) | (b1 == 0u8)) ^ (b1 == 0u8);\n    let z2 = (((b0 == 0u8) | (b1 == 0u8)) | (b2 == 0u8)) ^ ((b1 == 0u8) | (b2 == 0u8));\n    (r, z1, z2)\n}\n",
+        "pub fn main(c: bool, a: u16, b1: u16, b2: u16, b3: u16) -> (u16, bool, bool, bool) {\n    let r = match c { true => (a % b1) ^ (a / b2) ^ (a % b3), false => (a / b3) ^ (a % b2) ^ (a / b1) };\n    let p1 = b1 == 0u16;\n    let p2 = b2 == 0u16;\n    let p3 = b3 == 0u16;\n    (r, p1 | p2, (p1 | p2) | p3, p3 | p2)\n}\n",
+    ]
+    .iter()
+    .enumerate()
+    {
+        v.push(Prog { origin: format!("crafted-panic-cache-gates-reused-{n}"), src: src.to_string(), consts: vec![] });
+    }
     // programs that must be refused whatever the order in which the checker visits the functions
     for (n, src) in [
         "pub fn offset() -> u8 { 3u8 }\npub fn main(x: u8) -> u8 { x + offset() }\n",
